@@ -1225,8 +1225,8 @@ def _conc(item):
             for k in ('raised', 'lockwaits', 'unknown_blocks'):
                 count(f'schedules_with_{k}', 1 if info[k] else 0)
 
-            count('schedules_in_which_the_saves_write_different_positions', 1 if info['distinct_positions'] else 0)
-            count('schedules_whose_later_position_has_the_shorter_text', 1 if info['shorter_later'] else 0)
+            count('schedules_with_p1_differing_from_p2', 1 if info['distinct_positions'] else 0)
+            count('schedules_with_p2_textually_shorter_than_p1', 1 if info['shorter_later'] else 0)
             count('schedules_that_leave_a_temp_file', 1 if info['temp_left'] else 0)
             count('resumed_at_' + info.get('resumed_at', 'nothing'))
 
